@@ -5,10 +5,6 @@ prints one `res` line per case.
 -/
 open Slu
 
-def handlers : List (String × (Case → Res)) := [
-  ("equil", Drv.Equil.handle)
-]
-
 def dispatch (c : Case) : Res :=
   if !c.bad.isEmpty then Res.skip s!"unparsed line: {c.bad.head!}" else
   match lookup? c.fam handlers with
